@@ -8,6 +8,7 @@
 #     the parser and the interpreter: must give the text;
 #   * raw stream: random (long) literal sources, lexer vs model; end to end where the grammar accepts the style.
 import json
+import random
 import os
 from concurrent.futures import ThreadPoolExecutor
 from vlib import core
@@ -363,6 +364,14 @@ def run_cases(chk, cases):
             e2e.append((i, "parse", IMPORT_KW + s, exp))
         else:
             chk.dist("e2e:no-grammar-rule-for-enum-string")
+    # two literals that follow each other directly (the second is the next statement): each keeps its own content
+    singles = [t for t in e2e if t[1] == "e2e" and t[3] is not None]
+    rng_adj = random.Random(len(singles) * 7919 + 13)
+    for _ in range(min(60, len(singles) * 2 if len(singles) > 1 else 0)):
+        a, b = rng_adj.sample(singles, 2)
+        sep = rng_adj.choice(["\n", " \n", "\n\n", "\n注：说明\n", "  \n  ".replace(" ", "")])
+        sep_cps = [ord(ch) for ch in sep]
+        e2e.append((a[0], "e2e", a[2] + sep_cps + b[2][len(OUTPUT_KW):], a[3]))
     for cmd in ("e2e", "parse"):
         batch = [t for t in e2e if t[1] == cmd]
         if not batch:
